@@ -416,7 +416,7 @@ pub fn property() -> Property {
         subs: vec![Box::new(Sub {
             name: "c-api",
             rule: "each case in a child process (abort isolation). Decoder handles: alist (own writer, padded or not, as text or as a file) of a C01-style matrix, one of the 36 names, pattern '' or a 0/1 list with >= one 1 whose length divides n, then 1..=8 decode calls (f64 or f32 buffers of the punctured length, output_len in 0..=n, limits incl. 0): return value = iterations / -1 and the output = leading bits of what a fresh Rust decoder returns for Puncturer::depuncture(llrs) (f32 widened); guard bytes behind the buffer untouched. Encoder handles: C02-style matrices, pattern, 1..=4 messages: output = punctured Encoder::encode; a singular tail must give null. Failing constructors: malformed alist texts (C08 generator, filtered to texts the Rust parser rejects), unknown names, malformed patterns, missing file, directory instead of file, singular tail -> null. Non-trivial = decoder handle with >= 2 calls, encoder with a pattern, or a failing constructor; inner = decode calls",
-            cases: |t| t.pick(3_000, 200_000),
+            cases: |t| t.pick(12_000, 400_000),
             strategy,
             check,
             health: &[("calls>=3-with-limit-0", 0.15), ("failing-constructor", 0.20)],
